@@ -930,6 +930,38 @@ pub fn run(session: &Session, prop: &'static RefProp, rule: &str) -> i32 {
         session.run_enum(prop, cases);
     }
     if prop.id == "C12" && !session.stopped() {
+        // loops evaluate to (), however their bodies end and however often they run: the value, what the
+        // language's own tests say about it, and the cell made from it
+        let loops = [
+            "for x in [1, 2]~ { break; }",
+            "for x in [1, 2]~ { continue; }",
+            "for x in [1, 2]~ { x + 1 }",
+            "for x in []~ { break; }",
+            "while true { break; }",
+            "while false { break; }",
+            "loop { break; }",
+            "loop { if true { break; }; continue; }",
+            "while x: int = src(k) { k += 1; continue; }",
+            "while x: int = src(k) { break; }",
+            "while x: string = src(k) { break; }",
+            "for x in [1]~ { for y in [2]~ { break; }; continue; }",
+        ];
+        let src = "src := (k: mut int) -> int|string { if *k < 2 { return *k; } return \"end\"; }; k := mut 0; ";
+        for l in loops {
+            let tests = "n := if q: () = r { 1 } else { 0 }; c := mut r; m := match c { j: mut () => 1, => 0, }; o := match r { () => 1, => 0, };";
+            for text in [
+                format!("{src}r := {l}; {tests} (r, n, m, o)"),
+                format!("{src}f := () -> any {{ r := {l}; {tests} return (r, n, m, o); }}; f()"),
+                format!("{src}f := () -> any {{ r := {}; {tests} return (r, n, m, o); }}; f()", l.replace("break;", "return 5;")),
+            ] {
+                let expected = if text.contains("return 5;") && !l.contains("[]~") && !l.contains("while false") && !l.contains("x: string") && l.contains("break") { "value 5" } else { "value ((), 1, 1, 1)" };
+                if !session.stopped() {
+                    session.run_one(prop, &json!({"kind": "probe", "sig": "C12:loop-value", "text": text, "expected": expected}));
+                }
+            }
+        }
+    }
+    if prop.id == "C12" && !session.stopped() {
         // break / continue / return of an enclosing loop or function placed after an inner construct of
         // every kind: the inner construct does not change what they refer to
         let inner = [
